@@ -193,6 +193,7 @@ class Result:
         self.violations = []     # dicts: {sig, what, case}
         self.inconclusive = []   # strings
         self.exhaustive = None
+        self.no_evidence = False  # replays do not rewrite the evidence file
 
     def sample(self, s, cap=6):
         if len(self.samples) < cap:
@@ -248,9 +249,10 @@ class Result:
             "violations": len(fresh),
             "known_findings_seen": sorted({v["sig"] for v in known}),
         }
-        with open(os.path.join(EVIDENCE, self.pid + ".json"), "w") as f:
-            json.dump(ev, f, indent=1, sort_keys=True, default=_jd)
-            f.write("\n")
+        if not self.no_evidence:
+            with open(os.path.join(EVIDENCE, self.pid + ".json"), "w") as f:
+                json.dump(ev, f, indent=1, sort_keys=True, default=_jd)
+                f.write("\n")
         for s in self.inconclusive[:10]:
             print("INCONCLUSIVE property=%s %s" % (self.pid, s))
         seen = set()
@@ -343,3 +345,70 @@ def split(items, n):
     items = list(items)
     n = max(1, min(n, len(items)))
     return [items[i::n] for i in range(n)]
+
+
+# --------------------------------------------------------------------------
+# directory snapshots (plain os calls; no libcnb code involved)
+
+def snapshot(root, skip=None):
+    """{relative path (bytes): ('d', mode) | ('f', mode, content) | ('l', target)}; root itself excluded."""
+    import stat
+    if isinstance(root, str):
+        root = root.encode()
+    out = {}
+
+    def walk(d, rel):
+        try:
+            names = sorted(os.listdir(d))
+        except PermissionError:
+            out[rel + b"/<unreadable>"] = ("?",)
+            return
+        for n in names:
+            p = os.path.join(d, n)
+            r = (rel + b"/" + n) if rel else n
+            if skip and skip(r):
+                continue
+            st = os.lstat(p)
+            if stat.S_ISLNK(st.st_mode):
+                out[r] = ("l", os.readlink(p))
+            elif stat.S_ISDIR(st.st_mode):
+                out[r] = ("d", stat.S_IMODE(st.st_mode))
+                walk(p, r)
+            elif not stat.S_ISREG(st.st_mode):
+                out[r] = ("s", stat.S_IFMT(st.st_mode), stat.S_IMODE(st.st_mode))   # fifo, socket, device: never opened
+            else:
+                try:
+                    with open(p, "rb") as f:
+                        c = f.read()
+                except PermissionError:
+                    c = b"<unreadable>"
+                out[r] = ("f", stat.S_IMODE(st.st_mode), c)
+    walk(root, b"")
+    return out
+
+
+def snap_diff(a, b, limit=6):
+    """Human-readable differences between two snapshots."""
+    out = []
+    for k in sorted(set(a) | set(b)):
+        if a.get(k) != b.get(k):
+            out.append("%r: %s -> %s" % (k, _short(a.get(k)), _short(b.get(k))))
+            if len(out) >= limit:
+                break
+    return out
+
+
+def _short(v):
+    if v is None:
+        return "absent"
+    if v[0] == "f":
+        return "file(mode=%o, %r)" % (v[1], v[2][:40])
+    if v[0] == "d":
+        return "dir(mode=%o)" % v[1]
+    if v[0] == "l":
+        return "link(%r)" % (v[1],)
+    return repr(v)
+
+
+def snap_json(s):
+    return {k.hex(): [x.hex() if isinstance(x, bytes) else x for x in v] for k, v in s.items()}
